@@ -58,6 +58,14 @@ CLAIMED = {
          "Exploration: for generated char.def files (overlapping, nested, adjacent, duplicated, single-point ranges around 0, the UTF-8 width boundaries, the surrogate gap and U+10FFFF; ALL and NOOOVBOW flags; comments and category lines) that load, the reported classes at every range end +-1, 0, U+10FFFF and 64 random scalars equal the union of covering lines (DEFAULT if none); the range iterator must be ordered, gap free and consistent with point queries. No absence claim.",
          "Files the loader rejects (reversed range, range ending at U+D7FF or U+10FFFF, unknown class) are not judged: the statement speaks about files that load. The iterator is only checked for files with at least one range line.",
          "DESIGN.md section 4, C17"),
+ "C18": ("schedule exploration by generated concurrent rounds in fresh child processes, differential against single-threaded results, dictionary snapshot invariant; ThreadSanitizer as race monitor in the thorough tier; Hypothesis-driven Python thread rounds",
+         "Exploration of schedules: each generated round (world, 2-16 threads released by a barrier right after the dictionary is wrapped in an Arc, per-thread text streams, start order and yields from the seed) runs in a fresh process so that first-use initialisation is raced; every thread's observations must equal the parent's single-threaded results and the dictionary snapshot must be unchanged; Python threads with their own Tokenizer from one Dictionary must match a sequential run; the thorough tier repeats every round under ThreadSanitizer and treats any report as a violation. Interleavings are sampled, not enumerated: a race needing a rare preemption can be missed.",
+         "Trusts the OS scheduler to produce varied interleavings (oversubscription: up to 16 rounds x 16 threads on 16 cores) and TSan's happens-before analysis. JapaneseDictionary: Send + Sync is asserted at compile time in the harness.",
+         "DESIGN.md section 4, C18 and section 8"),
+ "C19": ("property-based testing: proptest-generated CLI files against a README-format oracle computed with the library; Hypothesis-generated Python call histories against a Rust oracle server; interpreter crash detection through the driver's exit status",
+         "Exploration: on 6 worlds loaded from files like the tools do, generated files (blank lines, CRLF, missing final newline, several sentences per line) x modes x -a / -w x --split-sentences are fed to the freshly built sudachi binary and stdout is compared with the formatter applied to the library's analysis of each line without its terminator; generated Python histories (create with mode / fields / projection, tokenize with overrides and out= reuse, indexing, every accessor, split, lookup) are compared field by field with the oracle server, text[begin:end] must be the raw surface, a mode override must not leak, and the interpreter must survive. No absence claim.",
+         "pre_tokenizer is not exercised (tokenizers package absent). `--split-sentences only` is compared modulo newlines. A result list is reused as out= only with tokenizers of the projection it was created with (a list keeps its creator's projection).",
+         "DESIGN.md section 4, C19"),
  "C20": ("property-based testing (proptest): boundary-value generation of every plugin parameter against an explicit in-range predicate (load succeeds iff predicate); matrix differential and assertion-monitored analysis for accepted configurations",
          "Exploration: matrices n x m with provider ids / costs / inhibited pairs / unk.def lines drawn around {-32769, -32768, -1, 0, n-1, n, n+1, 32767, 32768, 65535, 65536} and POS present/absent x userPOS allow/forbid/missing; loading must return Ok exactly when the predicate holds and never panic; accepted configurations must leave every non-inhibited matrix cell untouched and analyse texts without tripping the matrix index assertions. No absence claim.",
          "Known finding F6a (Simple/Regex id equal to the matrix size accepted) is excluded by predicate and pinned. Left ids are compared with the second matrix dimension, right ids with the first (what the lattice indexes).",
@@ -110,7 +118,7 @@ def main():
             na.append({"property_id": i, "reason": PENDING.get(i, "check not built yet in this session (work in progress; see DESIGN.md section 4 for the planned generator and oracle)")})
     m = {
         "version": 1,
-        "setup_cmd": "cd /verif/harness && CARGO_NET_OFFLINE=true cargo build --release --offline",
+        "setup_cmd": "cd /verif/harness && CARGO_NET_OFFLINE=true cargo build --release --offline && cd /repo && CARGO_NET_OFFLINE=true CARGO_TARGET_DIR=/verif/target/repo PYO3_PYTHON=/opt/veriftools/pyvenv/bin/python cargo build --offline -p sudachi-cli -p sudachipy",
         "hooks": {
             "guard": "cargo feature `verif` of crate sudachi (sudachi/Cargo.toml [features] verif = [])",
             "enable": "the harness depends on sudachi = { path = \"/repo/sudachi\", features = [\"verif\"] }; every ./check run starts with cargo build of the harness, which rebuilds /repo/sudachi from its working tree",
@@ -120,7 +128,7 @@ def main():
         },
         "engines": [
             {"name": "vcheck", "path": "/verif/harness", "serves_properties": [c["property_id"] for c in checks],
-             "kind_free_text": "Rust binary: proptest TestRunner driven from a seeded, 16-shard runner with panic capture, watchdog, shrinking, JSON replay files and evidence writer; oracles are reference models / validity predicates / differentials written in the harness"},
+             "kind_free_text": "Rust binary (plus py/c19_check.py and py/c18_check.py, Hypothesis drivers run by it for the Python halves of C19/C18): proptest TestRunner driven from a seeded, 16-shard runner with panic capture, watchdog, shrinking, JSON replay files and evidence writer; oracles are reference models / validity predicates / differentials written in the harness"},
         ],
         "checks": checks,
         "not_applicable": na,
